@@ -317,6 +317,7 @@ func run(c *enum.Ctx) {
 	c.Assume("reference definitions of the built-in alphabets are restated in the harness from the package documentation")
 	n := 0
 	do := func(k kase) {
+		c.Doing(0, k)
 		c.Eval()
 		n++
 		if check(c, k) {
